@@ -1630,6 +1630,9 @@ class SourceFormGen:
             return s
         f = self.rng.choice(self.FUNCS)
         arg = self.sum(depth - 1) if self.rng.random() < 0.5 else self.term(depth - 1, allow_sign=False)
+        if not arg.free_symbols:
+            # f(number) is not a law-style shape, and SymPy replaces exp(-27.3) by a rounded Float while printing
+            arg = self.rng.choice(self.syms) * arg
         if f == "sqrt":
             return sympy.sqrt(arg)
         return getattr(sympy, f)(arg)
